@@ -172,7 +172,7 @@ class Job:
             # block this model (by input point) and ask again
             blk = []
             for at in T.Atom._all:
-                if at.kind == "var" and at.args[0] in r.model and r.model[at.args[0]] is not None:
+                if at.kind == "var" and at.args[0] in r.model and isinstance(r.model[at.args[0]], Fraction):
                     blk.append(T.b_ne(T.Poly.atom(at), T.Poly.const(r.model[at.args[0]])))
             if not blk:
                 self.errors.append(f"{name}: sat without input variables")
